@@ -71,7 +71,7 @@ pub fn sections(thorough: bool) -> Vec<Section> {
     let mut out_secs = Vec::new();
     // ---- CA builder
     {
-        let ops = [CaOp::Country("DE"), CaOp::Country("FR"), CaOp::Org("First Org"), CaOp::Org("Zweite \u{d6}rg")];
+        let ops = [CaOp::Country("DE"), CaOp::Country("fr"), CaOp::Org("First Org"), CaOp::Org("Zweite \u{d6}rg")];
         let depth = if thorough { 6 } else { 5 };
         let hs = histories(&ops, depth);
         let sec = Section::new(&format!("library/ca-builder histories depth<={}", depth), &format!("every one of the 4^k histories (k <= {}) of country_name / organization_name calls (two values each), through CertificateBuilder::new().certificate_authority() and through CaBuilder::new(caller parameters with a three-attribute name), on CertificateBuilder::new().certificate_authority(), then build(): the subject of the returned certificate (and of params()) is what an insertion-ordered map holds after the same assignments; CA flag and the three key usages are present", depth)).with_deadline(if thorough { 600 } else { 30 });
